@@ -22,4 +22,13 @@ def add_to(run):
 
 
 def add_termination(run):
-    pass
+    from contracts import prepare_term as c
+    try:
+        fv = c.verify_prepare_terminates()
+    except Unsupported as e:
+        run.functions["amaranth_soc.csr.bus.Multiplexer._Shadow.prepare (termination)"] = f"unsupported: {e} (the wall-clock/recursion guard decides)"
+        run.bounded_notes.append(f"prepare() termination measure: source outside the subset on this tree ({e})")
+        return
+    run.functions["amaranth_soc." + fv.qualname + " (termination)"] = f"proved: measure max(0, B - size) decreases at the only recursive call ({len(fv.obs)} obligations)"
+    run.require("csr.bus.Multiplexer._Shadow.prepare::measure-strictly-decreases")
+    discharge_all(run, fv.obs, timeout_ms=20000)
